@@ -47,7 +47,12 @@ struct Ctl {
     conns: AtomicUsize,
 }
 
-async fn pump(mut from: tokio::net::tcp::OwnedReadHalf, mut to: tokio::net::tcp::OwnedWriteHalf, ctl: Arc<Ctl>, gen: usize) {
+async fn pump(
+    mut from: tokio::net::tcp::OwnedReadHalf,
+    mut to: tokio::net::tcp::OwnedWriteHalf,
+    ctl: Arc<Ctl>,
+    gen: usize,
+) {
     let mut buf = vec![0u8; 4096];
     loop {
         if ctl.cut.load(Ordering::Relaxed) || ctl.conns.load(Ordering::Relaxed) != gen {
@@ -77,9 +82,13 @@ async fn pump(mut from: tokio::net::tcp::OwnedReadHalf, mut to: tokio::net::tcp:
 
 async fn proxy(listener: tokio::net::TcpListener, server: std::net::SocketAddr, ctl: Arc<Ctl>) {
     loop {
-        let Ok((client, _)) = listener.accept().await else { return };
+        let Ok((client, _)) = listener.accept().await else {
+            return;
+        };
         let _ = client.set_nodelay(true);
-        let Ok(up) = tokio::net::TcpStream::connect(server).await else { continue };
+        let Ok(up) = tokio::net::TcpStream::connect(server).await else {
+            continue;
+        };
         let _ = up.set_nodelay(true);
         let gen = ctl.conns.fetch_add(1, Ordering::Relaxed) + 1;
         ctl.cut.store(false, Ordering::Relaxed);
@@ -104,8 +113,17 @@ fn unique(ty: u8, index: u16, serial: u32, global: u32, fsel: u8) -> Rec {
         5 | 6 => Value::Ana(((index as i32 % 30) * 1000 + (s % 1000) as i32 - 500) as f64),
         _ => Value::Oct(vec![ty, index as u8, s as u8, (s >> 8) as u8, global as u8]),
     };
-    let flags = if ty == 7 { 0 } else { [0x01u8, 0x01, 0x03, 0x11, 0x21, 0x05, 0x09, 0x00][(fsel % 8) as usize] | (((s as u8) & 1) << 1) };
-    let time = if ty == 7 { None } else { Some((1_000_000 + (global as u64 * 7919) % 131_071, true)) };
+    let flags = if ty == 7 {
+        0
+    } else {
+        [0x01u8, 0x01, 0x03, 0x11, 0x21, 0x05, 0x09, 0x00][(fsel % 8) as usize]
+            | (((s as u8) & 1) << 1)
+    };
+    let time = if ty == 7 {
+        None
+    } else {
+        Some((1_000_000 + (global as u64 * 7919) % 131_071, true))
+    };
     Rec { value, flags, time }
 }
 
@@ -132,7 +150,8 @@ fn do_update(handle: &OutstationHandle, w: &Mutex<World>, key: (u8, u16), fsel: 
         w.hist.entry(key).or_default().push(rec.clone());
         rec
     };
-    let info = handle.transaction(|db| c10::apply(db, key.0, key.1, &rec, UpdateOptions::detect_event()));
+    let info =
+        handle.transaction(|db| c10::apply(db, key.0, key.1, &rec, UpdateOptions::detect_event()));
     let mut w = w.lock().unwrap();
     w.cur.insert(key, rec.clone());
     match info {
@@ -151,10 +170,20 @@ fn authentic(w: &World, delivered: &[(u8, (u8, u8), bool, Item)], out: &mut Case
     for (ty, (g, v), is_event, item) in delivered {
         let name = TYPE_NAMES.get(*ty as usize).copied().unwrap_or("?");
         let Some(h) = w.hist.get(&(*ty, item.index)) else {
-            out.fail(Fail::new("S1-fabricated", format!("the handler received {name}[{}] (g{g}v{v}) but no such point exists", item.index)));
+            out.fail(Fail::new(
+                "S1-fabricated",
+                format!(
+                    "the handler received {name}[{}] (g{g}v{v}) but no such point exists",
+                    item.index
+                ),
+            ));
             return;
         };
-        if !h.iter().rev().any(|rec| carry_check(*ty, *g, *v, rec, item).is_ok()) {
+        if !h
+            .iter()
+            .rev()
+            .any(|rec| carry_check(*ty, *g, *v, rec, item).is_ok())
+        {
             out.fail(Fail::new("S1-authentic", format!("the handler received {name}[{}] via g{g}v{v} ({}) = {:?}, which the point never held ({} records)", item.index, if *is_event { "event" } else { "static" }, item, h.len())));
             return;
         }
@@ -163,7 +192,11 @@ fn authentic(w: &World, delivered: &[(u8, (u8, u8), bool, Item)], out: &mut Case
 
 pub fn run_case(case: &Case) -> CaseOut {
     let mut out = CaseOut::default();
-    let rt = tokio::runtime::Builder::new_multi_thread().worker_threads(2).enable_all().build().expect("runtime");
+    let rt = tokio::runtime::Builder::new_multi_thread()
+        .worker_threads(2)
+        .enable_all()
+        .build()
+        .expect("runtime");
     rt.block_on(async {
         // ---- outstation behind a real TCP server
         let mode = if case.discard { LinkErrorMode::Discard } else { LinkErrorMode::Close };
@@ -367,11 +400,19 @@ impl Prop for Tcp {
     }
     fn strategy(tier: Tier) -> BoxedStrategy<Case> {
         let n = if tier == Tier::Quick { 14 } else { 30 };
-        let point = (0u8..8, 0u16..6, 1u8..=3, any::<u8>(), any::<u8>()).prop_map(|(ty, index, class, s, e)| {
-            let sv = STATIC_VARS[ty as usize];
-            let ev = EVENT_VARS[ty as usize];
-            PointSpec { ty, index, class, svar: sv[s as usize % sv.len()], evar: ev[e as usize % ev.len()] }
-        });
+        let point = (0u8..8, 0u16..6, 1u8..=3, any::<u8>(), any::<u8>()).prop_map(
+            |(ty, index, class, s, e)| {
+                let sv = STATIC_VARS[ty as usize];
+                let ev = EVENT_VARS[ty as usize];
+                PointSpec {
+                    ty,
+                    index,
+                    class,
+                    svar: sv[s as usize % sv.len()],
+                    evar: ev[e as usize % ev.len()],
+                }
+            },
+        );
         let op = prop_oneof![
             6 => (any::<u16>(), any::<u8>()).prop_map(|(s, f)| Op::Update(s, f)),
             2 => (any::<u16>(), any::<u8>()).prop_map(|(s, n)| Op::Burst(s, n)),
@@ -379,8 +420,22 @@ impl Prop for Tcp {
             2 => Just(Op::Cut),
             1 => prop_oneof![Just(0u16), Just(1), Just(7), 1u16..300].prop_map(Op::Chunk),
         ];
-        (proptest::collection::vec(point, 1..10), any::<bool>(), prop_oneof![Just(1u16), Just(3u16), Just(100u16)], prop_oneof![Just(249u16), Just(2048u16)], any::<bool>(), proptest::collection::vec(op, 1..n))
-            .prop_map(|(points, unsolicited, buffer, sol_tx, discard, ops)| Case { points, unsolicited, buffer, sol_tx, discard, ops })
+        (
+            proptest::collection::vec(point, 1..10),
+            any::<bool>(),
+            prop_oneof![Just(1u16), Just(3u16), Just(100u16)],
+            prop_oneof![Just(249u16), Just(2048u16)],
+            any::<bool>(),
+            proptest::collection::vec(op, 1..n),
+        )
+            .prop_map(|(points, unsolicited, buffer, sol_tx, discard, ops)| Case {
+                points,
+                unsolicited,
+                buffer,
+                sol_tx,
+                discard,
+                ops,
+            })
             .boxed()
     }
     fn cases(tier: Tier) -> u32 {
